@@ -413,3 +413,6 @@ func sortedKeys[V any](m map[string]V) []string {
 	sort.Strings(ks)
 	return ks
 }
+
+// coinDenoms: the coins that can exist in the harness world
+var coinDenoms = []string{"stake", "point"}
